@@ -55,17 +55,39 @@ func vccTick() int64 { return atomic.AddInt64(&vccClock, 1) }
 // style 0: MPP (addr 1, total = value); 1: blinded (total = value);
 // 2: MPP with a different total (ErrMPPTotalAmountMismatch against siblings).
 func vccShard(h int, id, amt, val uint64, style int) []any {
+	// route content (verif_store_test.go vShape), a fixed function of the
+	// attempt id: plain, final hop = introduction node, longer blinded
+	// tails, custom records / AMP / first-hop data
+	var sh *vShape
 	switch style {
 	case 1:
 		bt := val
 		if bt == 0 {
 			bt = 5
 		}
-		return []any{"reg", h, id, amt, false, uint64(0), uint64(0), true, bt}
+		switch id % 5 {
+		case 1:
+			sh = &vShape{N: 1, BL: 1}
+		case 2:
+			sh = &vShape{N: 2, BL: 1, Fee: 3}
+		case 3:
+			sh = &vShape{N: 3, BL: 2, CR: 5, ED: 3}
+		case 4:
+			sh = &vShape{N: 2, BL: 2, FH: 3, CRV: 2}
+		}
+		return []any{"reg", h, id, amt, false, uint64(0), uint64(0), true,
+			bt, sh}
 	case 2:
-		return []any{"reg", h, id, amt, true, uint64(1), val + 1, false, uint64(0)}
+		return []any{"reg", h, id, amt, true, uint64(1), val + 1, false,
+			uint64(0), sh}
 	}
-	return []any{"reg", h, id, amt, true, uint64(1), val, false, uint64(0)}
+	switch id % 4 {
+	case 1:
+		sh = &vShape{N: 2, CR: 2, CRV: 1, Fee: 5}
+	case 2:
+		sh = &vShape{N: 3, AMP: 2, MD: 1, FH: 1}
+	}
+	return []any{"reg", h, id, amt, true, uint64(1), val, false, uint64(0), sh}
 }
 
 // vccGen generates one program.  mode "disc": every register op owns a
